@@ -24,9 +24,10 @@ ALL_LEAVES = ["U8", "S8", "U16", "S16", "U32", "S32", "U64", "S64", "F32", "F64"
 ALL_CONS = ["CollP", "CollP16", "CollF", "CollG", "OptP", "IfP", "TBP", "TBPe", "TBF", "TBG", "TBGe", "TBT", "TBTe",
             "LenSw", "LenSwD", "EnumSw", "FlagSw", "TupA", "TupB", "Tup2", "TmplA", "TmplFlag", "TmplSkip",
             "TmplCtx", "TmplCtxUp", "Adapt"]
-# ill-formed programs (context lookups that cannot resolve, switches over signed / wide selectors): they have no domain
-# values; the model only requires Enc to classify them as such and Dec to stay total
-MISUSE_CONS = ["MisOpt", "MisTup", "MisSel", "MisSel2", "MisName", "MisName2", "MisUp", "MisFlagS", "MisEnumW", "MisBitS"]
+# extra top-level constructors: a 32-bit count prefix, and ill-formed programs (context lookups that cannot resolve,
+# switches over signed / wide selectors) that have few or no domain values: the model requires Enc to classify their
+# values and Dec to stay total on arbitrary bytes
+MISUSE_CONS = ["CollP32", "MisOpt", "MisTup", "MisSel", "MisSel2", "MisName", "MisName2", "MisUp", "MisFlagS", "MisEnumW", "MisBitS"]
 INVS = ["RoundTrip", "Compose", "SizeSound", "EndianAgnostic", "DecTotal", "DecProbe", "EncTotal"]
 TAILS = [b"", b"\x00", b"\xff\x01", b"\x00\x00\x07"]
 JVM = ("-XX:ParallelGCThreads=2", "-XX:CICompilerCount=2")   # many small JVMs side by side: keep each one narrow
@@ -553,7 +554,10 @@ class Gen:
                 if left <= 0:
                     break
                 b = r.randrange(1, min(left, 12) + 1)
-                fs.append({"n": "m%d" % j, "bits": b})
+                f = {"n": "m%d" % j, "bits": b}
+                if b >= 2 and r.random() < 0.25:
+                    f["ad"] = {"name": "IntEnum", "ms": ENUM_MS}
+                fs.append(f)
                 left -= b
             t = {"k": "bitfield", "p": _it(w, False), "fs": fs, "shift": r.random() < 0.6}
             if r.random() < 0.4:
